@@ -434,7 +434,7 @@ func (e *Engine) get(st *State, fr *Frame, v ssa.Value) Value {
 		return VFunc{Fn: x, ID: e.sym.Const("fn!"+fullKey(x), SInt)}
 	case *ssa.Global:
 		// pointer to a global cell
-		return VPtr{Ref: e.sym.Const("global!"+x.Pkg.Pkg.Path()+"."+x.Name(), SInt), Idx: TZero, Root: x.Type().(*types.Pointer).Elem(), ArrLen: -1}
+		return VPtr{Ref: e.sym.Const("global!"+x.Pkg.Pkg.Path()+"."+x.Name(), SInt), Idx: TZero, Root: x.Type().(*types.Pointer).Elem(), ArrLen: -1, NonNil: true}
 	case *ssa.Builtin:
 		return VFunc{}
 	}
